@@ -184,7 +184,10 @@ end Station
 
 inductive Packet where
   | unsecured (payload : Nat)        -- basic header NH = COMMON_HEADER
-  | secured (m : Option Msg)         -- NH = SECURED_PACKET; `none`: the security envelope does not decode
+  | secured (m : Option Msg)         -- NH = SECURED_PACKET; `none`: what follows is not a decodable EtsiTs103097Data-Signed
+                                     -- (the envelope does not decode, OR it decodes with a content choice other than
+                                     -- signedData – unsecuredData / encryptedData / signedCertificateRequest –, OR its
+                                     -- ToBeSignedData does not re-encode): `verify` raises on all of them
   | otherNH                          -- NH = ANY
   | badVersion
   deriving DecidableEq, Repr, Inhabited
